@@ -9,6 +9,15 @@ Model: Gsu/Model/Db.lean (what `drv_c06` executes). `Info.rows` is the logical t
 `keymap i rows` is the index that table should have on index `i`; `IAgree ti` says every
 overlay of `ti` *means* exactly that (`ov.sem k = some (keymap i rows k)` for every key), and
 `lookup_returns_sem` says the code's Lookup returns the meaning.
+
+Global invariant (Gsu/Proofs/DbInv1–9.lean): `DbInv : State → Prop` — every table `TblInv`
+(IAgree, LayersOK, DeltasOK, unique offsets and keys, exact row count), the pending merge /
+persist result is the one of the current layers, a pending build is the one of the current rows,
+every transaction's view = snapshot ⊕ own writes (`TVInv`) — is kept by EVERY `Op` of `step`
+(`invariant_step`), so `index_agrees` / `index_agrees_tran` hold in all reachable states.
+`OpsOK` (the hypotheses on a history): a table has ≥ 1 index; a written row carries one key per
+index of its table; an index is built only if it is a key of the rows (in the Go code: Ixspec.Key
+computes the keys, every table has a key, creating a unique index over duplicates fails).
 -/
 import Gsu.Proofs.DbInv9
 import Gsu.Gen.Dbphys
